@@ -47,6 +47,15 @@ def stepF (line : String) : String :=
       joinToks ((Kin.scanTreeLevels (fun (par : Option Int) (a : Int) =>
         match par with | none => a % 1000003 | some y => (31 * y + a) % 1000003) ps as 0 0).map toString)
     | none => "bad-args"
+  | "scanlevelsrev" :: ts =>
+    -- Layer B stage 2, leaves → root: the level-grouped transcription with the same (non-additive) step
+    let p : Rd (List Int × List Int) := do let ps ← Rd.list Rd.int; let as ← Rd.list Rd.int; pure (ps, as)
+    match Rd.run p ts with
+    | some (ps, as) =>
+      if ps.length != as.length then "bad-args" else
+      joinToks ((Kin.scanTreeLevelsRev (fun (c : Option Int) (a : Int) =>
+        match c with | none => (a + 7) % 1000003 | some y => (a + 37 * y) % 1000003) ps as 0 0 (· + ·)).map toString)
+    | none => "bad-args"
   | "scanrev" :: ts =>
     -- y = (a + 37·carry) mod 1000003 ; carry none (deepest level) counts as 7
     let p : Rd (List Int × List Int) := do let ps ← Rd.list Rd.int; let as ← Rd.list Rd.int; pure (ps, as)
